@@ -252,6 +252,8 @@ def expr(a, xs, Y, zs, e):
             v = expr(a, xs, Y, zs, t[1]).T           # transpose of a sub-expression (2-D bi-affine arrays, decision rules)
         elif op == 'reshape':
             v = expr(a, xs, Y, zs, t[2]).reshape(tuple(t[1]))
+        elif op == 'sum':
+            v = a.sum(expr(a, xs, Y, zs, t[2]), t[1])        # sum over ONE axis of a sub-expression (N-d bi-affine arrays, rules)
         else:
             raise ValueError(op)
         tot = v if tot is None else tot + v
@@ -606,6 +608,33 @@ def core_specs():
               dict(e=[['vy', 0], ['vx', 0, -1.0], ['vz', 0, -1.0]], sense='ge', rhs=0),
               dict(e=[['vy', 0]], sense='le', rhs=6)],
         obj=dict(kind='minmax', set=0, e=[['x', 0, [[1, 2, 1], [1.5, 1, 2]]], ['y', 0, [[0.5, 0.25, 0.5], [0.25, 0.5, 0.25]]]]))
+    # 21c. sums over a LEADING / middle axis of 2-D bi-affine arrays and decision rules (the random-coefficient part and the
+    #      constant part are summed by separate code)
+    add('matrix-sum-axis0', dv=[dict(shape=[2, 3])], rv=[[2, 3]], sets=[box(-0.5, 1)],
+        bounds=[dict(x=0, lo=-4, hi=4)],
+        rows=[dict(e=[['sum', 0, [['vx', 0], ['xmz', 0, 0]]]], sense='le', rhs=[3, 4, 5]),
+              dict(e=[['sum', 1, [['vx', 0, 0.5], ['xmz', 0, 0]]]], sense='le', rhs=[3.5, 4.5])],
+        obj=dict(kind='minmax', set=0, e=[['x', 0, [[-1, -2, -1], [-1.5, -1, -2]]], ['z', 0, [[0.25, 0, 0], [0, 0, 0.5]]]]))
+    add('ldr-sum-axis0', dv=[dict(shape=[3])], rv=[[3]],
+        ldr=[dict(shape=[2, 3], deps=[dict(z=0, yidx=[0, {}], zidx=0), dict(z=0, yidx=[1, 1], zidx=dict(a=1, b=3)), dict(z=0, yidx=[1, 2], zidx=2)])],
+        sets=[box(0, 1) + [dict(t='lin', e=[['z', 0, [1, 1, 1]]], sense='eq', rhs=1.5)]],
+        bounds=[dict(x=0, lo=0, hi=10)],
+        rows=[dict(e=[['sum', 0, [['vy', 0]]], ['Bz', 0, [[-2, 0, -1], [0, -3, 0], [-1, -1, -2]]]], sense='ge', rhs=[1.0, 0.5, 1.5]),
+              dict(e=[['vy', 0]], sense='ge', rhs=0),
+              dict(e=[['sum', 1, [['vy', 0]]], ['Ax', 0, [[-1, 0, 0], [0, 0, -1]]]], sense='le', rhs=0)],
+        obj=dict(kind='minmax', set=0, e=[['x', 0, [1, 1, 0.5]], ['y', 0, [[1, 2, 1], [2, 1, 3]]]]))
+    # 21d. robust EQUALITIES over sets that are not full-dimensional (simplex): the coefficients of z need not vanish
+    add('robust-equality-simplex', dv=[dict(shape=[3]), dict(shape=[])], rv=[[3]],
+        sets=[box(0, 1) + [dict(t='lin', e=[['z', 0, [1, 1, 1]]], sense='eq', rhs=1)]],
+        bounds=[dict(x=0, lo=0, hi=4), dict(x=1, lo=-10, hi=10)],
+        rows=[dict(e=[['xz', 0, 0, [[1, 0, 0], [0, 1, 0], [0, 0, 1]]], ['x', 1, -1.0]], sense='eq', rhs=0, set=0),
+              dict(e=[['x', 0, [1, 0, 0]]], sense='le', rhs=3), dict(e=[['x', 0, [0, 1, 0]]], sense='le', rhs=2)],
+        obj=dict(kind='max', e=[['x', 1, 1.0], ['x', 0, [0.125, 0.125, 0.125]]]))
+    add('robust-equality-simplex-ldr', dv=[dict(shape=[3])], rv=[[3]], ldr=[dict(shape=[], deps=[dict(z=0, zidx=0)])],
+        sets=[box(0, 1) + [dict(t='lin', e=[['z', 0, [1, 1, 1]]], sense='eq', rhs=1)]],
+        bounds=[dict(x=0, lo=0, hi=6)],
+        rows=[dict(e=[['xz', 0, 0, [[1, 0, 0], [0, 1, 0], [0, 0, 1]]], ['vy', 0]], sense='eq', rhs=5)],
+        obj=dict(kind='minmax', set=0, e=[['x', 0, [0.5, 0.5, 0.5]], ['vy', 0, 3.0]]))
     # 22. scalar random variable and scalar decision (0-d shapes)
     add('scalar', dv=[dict(shape=[]), dict(shape=[])], rv=[[]], sets=[box(-0.5, 1.5)],
         bounds=[dict(x=0, lo=-4, hi=4), dict(x=1, lo=-4, hi=4)],
